@@ -101,7 +101,8 @@ type STex struct {
 }
 
 type SMat struct {
-	Leaves []Leaf `json:"leaves"`
+	Leaves   []Leaf `json:"leaves"`
+	ExtOrder string `json:"extorder"` // extension ids in slice order (part of the Go value, not of the glTF material)
 }
 
 type STrs struct {
@@ -412,7 +413,11 @@ func (sp *srcProjector) material(m *gltf.PolyformMaterial) int {
 	for _, k := range keys {
 		flatten(&l, "extras."+k, toGeneric(m.Extras[k]))
 	}
-	sp.src.Mats = append(sp.src.Mats, SMat{Leaves: sortLeaves(l)})
+	order := ""
+	for _, e := range m.Extensions {
+		order += e.ExtensionID() + ";"
+	}
+	sp.src.Mats = append(sp.src.Mats, SMat{Leaves: sortLeaves(l), ExtOrder: order})
 	sp.matIds[m] = len(sp.src.Mats)
 	return len(sp.src.Mats)
 }
